@@ -38,13 +38,55 @@ func (d *Data) getMemDBbyVersion(v dvid.VersionID) (db *memdb, found bool) {
 	if found {
 		return
 	}
-	for branch := range d.dbs.head {
+	for branch, mdb := range d.dbs.head {
 		_, branchV, err := datastore.GetBranchHead(uuid, branch)
 		if err == nil && branchV == v {
-			return d.dbs.head[branch], true
+			if err := d.trackHead(mdb, v); err != nil {
+				dvid.Criticalf("neuronjson %q: can't load in-memory db of branch %q at version %d: %v\n", d.DataName(), branch, v, err)
+				return nil, false
+			}
+			return mdb, true
 		}
 	}
 	return
+}
+
+// trackHead makes a branch's in-memory db hold the annotations of the branch head v.
+// A new version made from the version the db holds starts with identical annotations,
+// so the db simply follows it.  Otherwise -- the branch did not exist when the db was
+// set up, or its head moved to a version that is not the child of the version held
+// (a new version of a merge node) -- the annotations are loaded from the store.
+func (d *Data) trackHead(mdb *memdb, v dvid.VersionID) error {
+	mdb.mu.RLock()
+	current := mdb.loaded && mdb.version == v
+	mdb.mu.RUnlock()
+	if current {
+		return nil
+	}
+	mdb.mu.Lock()
+	defer mdb.mu.Unlock()
+	if mdb.loaded && mdb.version == v {
+		return nil
+	}
+	if mdb.loaded {
+		parents, err := datastore.GetParentsByVersion(v)
+		if err == nil && len(parents) == 1 && parents[0] == mdb.version {
+			mdb.version = v
+			return nil
+		}
+	}
+	mdb.data = make(map[uint64]NeuronJSON)
+	mdb.fields = make(map[string]int64)
+	mdb.fieldTimes = make(map[string]string)
+	mdb.ids = []uint64{}
+	mdb.loaded = false
+	if err := d.loadMemDB(v, mdb); err != nil {
+		return err
+	}
+	d.initFieldTimes(mdb)
+	mdb.version = v
+	mdb.loaded = true
+	return nil
 }
 
 // in-memory neuron annotations with sorted body id list for optional sorted iteration.
@@ -53,6 +95,8 @@ type memdb struct {
 	ids        []uint64          // sorted list of body ids
 	fields     map[string]int64  // list of all fields and their counts for HEAD
 	fieldTimes map[string]string // timestamp of last update for each field in HEAD
+	version    dvid.VersionID    // the version whose annotations a branch HEAD db holds
+	loaded     bool              // false while a branch HEAD db waits for its branch to exist
 	mu         sync.RWMutex
 }
 
@@ -81,6 +125,9 @@ func (d *Data) initMemoryDB(versions []string) error {
 					branch, d.DataName(), err)
 			} else if err := d.loadMemDB(v, mdb); err != nil {
 				return err
+			} else {
+				mdb.version = v
+				mdb.loaded = true
 			}
 			d.initFieldTimes(mdb)
 		} else {
